@@ -2,6 +2,7 @@
 package verifharness
 
 import (
+	"encoding/json"
 	"fmt"
 	"sort"
 	"strings"
@@ -18,6 +19,10 @@ type C04Case struct {
 	FirstValue bool `json:"first_value_readers,omitempty"`
 	// Neighbours: the long-lived WAF serves other requests (one of them triggers run-time exclusions) in between
 	Neighbours bool `json:"neighbours,omitempty"`
+	// OtherWAFs: after the first fresh WAF another WAF is created and kept open: the same rules with the collections
+	// exchanged (argument collections <-> header/cookie collections), so the same selector and operator texts are
+	// compiled in another context. The outcome may not depend on which WAFs were created earlier in the process.
+	OtherWAFs bool `json:"other_wafs,omitempty"`
 	// Reps: repetitions on fresh WAFs and on the long-lived one (default 6 each); witnesses of rare divergences use more
 	Reps int `json:"reps,omitempty"`
 }
@@ -86,6 +91,19 @@ func genC04(t *rapid.T) *C04Case {
 			Acts: []string{fmt.Sprintf("ctl:ruleRemoveTargetById=%d;%s:%s", victim.ID, coll, key), "ctl:ruleRemoveById=" + fmt.Sprint(rs[len(rs)-1].ID)}}}}, c.RS.Items...)
 		c.Neighbours = true
 	}
+	if rapid.IntRange(0, 2).Draw(t, "otherwafs") == 0 {
+		// rules with a regular-expression selector written with capitals (the selector text means something different
+		// on argument collections, whose names keep their case, than on header collections, which fold it)
+		id := 980
+		for i, n := 0, rapid.IntRange(1, 2).Draw(t, "nsel"); i < n; i++ {
+			id++
+			c.RS.Items = append(c.RS.Items, Item{Rule: &Rule{ID: id, Phase: rapid.IntRange(1, 2).Draw(t, "ophase"), Disr: "pass",
+				Targets: []Target{{Var: rapid.SampledFrom([]string{"ARGS_GET", "ARGS", "ARGS_GET_NAMES", "REQUEST_HEADERS", "REQUEST_COOKIES"}).Draw(t, "ovar"),
+					Rx: true, Key: rapid.SampledFrom([]string{"^A", "^[A-C]", "B$", "^Foo", "^X-", "^(?:A|b)$"}).Draw(t, "osel")}},
+				Op: "unconditionalMatch"}})
+		}
+		c.OtherWAFs = true
+	}
 	if rapid.IntRange(0, 7).Draw(t, "orderacrossnames") == 0 {
 		// a chain whose link reads TX.1 captured from a target with several values under DIFFERENT names: which value
 		// is captured last follows the iteration order of the collection
@@ -102,6 +120,31 @@ func genC04(t *rapid.T) *C04Case {
 		c.RS.Pre = append(c.RS.Pre, fmt.Sprintf("SecArgumentsLimit %d", c.ArgLimit))
 	}
 	return c
+}
+
+// c04Mirror: the rule set with argument collections and header/cookie collections exchanged in every target
+func c04Mirror(rs *RuleSet) *RuleSet {
+	var m RuleSet
+	b, _ := json.Marshal(rs)
+	_ = json.Unmarshal(b, &m)
+	swap := map[string]string{"ARGS": "REQUEST_HEADERS", "REQUEST_HEADERS": "ARGS", "ARGS_GET": "REQUEST_COOKIES", "REQUEST_COOKIES": "ARGS_GET",
+		"ARGS_NAMES": "REQUEST_HEADERS_NAMES", "REQUEST_HEADERS_NAMES": "ARGS_NAMES", "ARGS_GET_NAMES": "REQUEST_COOKIES_NAMES", "REQUEST_COOKIES_NAMES": "ARGS_GET_NAMES",
+		"ARGS_POST": "RESPONSE_HEADERS", "ARGS_POST_NAMES": "RESPONSE_HEADERS_NAMES"}
+	var walk func(r *Rule)
+	walk = func(r *Rule) {
+		for i := range r.Targets {
+			if v, ok := swap[r.Targets[i].Var]; ok {
+				r.Targets[i].Var = v
+			}
+		}
+		for _, l := range r.Chain {
+			walk(l)
+		}
+	}
+	for _, r := range m.Rules() {
+		walk(r)
+	}
+	return &m
 }
 
 func canonOutcome(o *Outcome) string {
@@ -159,6 +202,12 @@ func checkC04(c *C04Case) Result {
 		if f := compare(o, fmt.Sprintf("fresh WAF #%d", i)); f != nil {
 			res.Fail = f
 			return res
+		}
+		if c.OtherWAFs && i == 0 {
+			if mw, err := newWAF(c04Mirror(&c.RS).Render()); err == nil {
+				defer closeWAF(mw)
+				res.Labels = append(res.Labels, "other-waf-created-in-between")
+			}
 		}
 	}
 	w, err := newWAF(conf)
